@@ -73,6 +73,8 @@ func main() {
 		runC11(ctx)
 	case "C07":
 		runC07(ctx)
+	case "C20":
+		runC20(ctx)
 	case "C13":
 		runC13(ctx)
 	case "C14":
